@@ -76,6 +76,10 @@ func (u *UnitDefinition) FormatLongFloat(amount float64, displayZero bool) strin
 
 // formatNumber renders the amount without trailing fractional zeros, in the form the parser reads back.
 func formatNumber[T NumberType](amount T) string {
+	if amount == 0 {
+		// Also for the negative zero of floats, which would be rendered with a sign the parser does not read.
+		return "0"
+	}
 	var formatString string
 	switch any(amount).(type) {
 	case int64:
